@@ -29,7 +29,9 @@ type govState struct {
 
 type governorAbort struct{ reads int }
 
-func (g governorAbort) String() string { return fmt.Sprintf("governorAbort after %d state reads", g.reads) }
+func (g governorAbort) String() string {
+	return fmt.Sprintf("governorAbort after %d state reads", g.reads)
+}
 
 func (g *govState) GetState(a common.Address, k common.Hash) common.Hash {
 	g.reads++
